@@ -530,6 +530,15 @@ impl<S: Read> Parser<S> {
         let len = len as usize;
         let mut rdata = Vec::with_capacity(len);
         while rdata.len() < len {
+            // Per RFC 3597 § 5, the hexadecimal data may be split into
+            // several whitespace-separated words, each with an even
+            // number of digits. When a word ends, move to the next one.
+            if self.reader.skip_to_next_field_or_to_eol()? == FieldOrEol::Eol {
+                return Err(Error::new(
+                    self.reader.position(),
+                    ErrorKind::UnexpectedEndOfHexRdata,
+                ));
+            }
             let high_nibble = self.parse_ascii_hex_digit()?;
             let low_nibble = self.parse_ascii_hex_digit()?;
             rdata.push((high_nibble << 4) | low_nibble);
